@@ -628,3 +628,11 @@ Proof.
     + apply reg_exact_lemma in D. destruct D as [_ [_ D]]. apply D; auto.
     + apply reg_failed_frame_lemma in D. destruct D as [_ D]. apply D. exact H2.
 Qed.
+
+(* decidable equality of registry keys *)
+Lemma key_eq_dec_lemma : forall a b : key, {a = b} + {a <> b}.
+Proof.
+  intros [[v1 c1] n1] [[v2 c2] n2].
+  destruct (list_eq_dec N.eq_dec n1 n2) as [-> | Hn]; [|right; congruence].
+  destruct v1, v2; try (right; congruence); destruct c1, c2; try (right; congruence); left; reflexivity.
+Qed.
